@@ -215,11 +215,35 @@ def varlist_base(s):
 
 
 def NM(ip):
-    """The arbitrary variable name of this path: every `for all names` statement is instantiated at it."""
+    """The arbitrary variable name of this path: every `for all names` *goal* is checked at it."""
     g = ip.path.ghost
     if "NM*" not in g:
         g["NM*"] = sym.fresh("anyname", sym.Name)
+        _names(ip).append(g["NM*"])
+        for gen in list(g.get("forall_name_facts", [])):
+            ip.path.assume(gen(g["NM*"]))
     return g["NM*"]
+
+
+def _names(ip):
+    return ip.path.ghost.setdefault("names_of_interest", [])
+
+
+def forall_name(ip, gen):
+    """A fact that holds for every variable name: instantiated at every name of interest, now and later."""
+    NM(ip)
+    ip.path.ghost.setdefault("forall_name_facts", []).append(gen)
+    for nm in list(_names(ip)):
+        ip.path.assume(gen(nm))
+
+
+def witness_name(ip, hint="wname"):
+    """A fresh name constant (witness of an existential over names); all registered for-all facts are instantiated at it."""
+    nm = sym.fresh(hint, sym.Name)
+    _names(ip).append(nm)
+    for gen in list(ip.path.ghost.get("forall_name_facts", [])):
+        ip.path.assume(gen(nm))
+    return nm
 
 
 def install_vars(reg, src):
@@ -445,11 +469,19 @@ def install_vars(reg, src):
     def assume_varlist_valid(ip, sp, P, s0, base):
         """C13 invariant for the variable-list cache, phrased for callers: the canonical list of the current model is
         what `variables` specifies (names = mentioned variables, one per name, natural order)."""
-        nm = NM(ip)
         EXPR = sp.S.F("expr", sym.Ref)
-        excon = named_exists(ip, "EXCON", [s0.cons, nm], s0.ncon, lambda k: sp.S.OCC(EXPR(z3.Select(s0.cons, k)), nm))
-        objocc = z3.And(z3.Not(s0.obj_none), sp.occ(Opaque(s0.obj, "Expression"), nm))
-        ip.path.assume(z3.And(z3.Select(NAMES_OF(base), nm) == z3.Or(objocc, excon(s0.ncon)), DISTINCT(base), NATSORTED(base)))
+        ip.path.assume(z3.And(DISTINCT(base), NATSORTED(base)))
+
+        def gen(nm):
+            excon = named_exists(ip, "EXCON", [s0.cons, nm], s0.ncon, lambda k: sp.S.OCC(EXPR(z3.Select(s0.cons, k)), nm))
+
+            def pw(k, nm=nm):
+                if _once(ip, f"conocc:{s0.cons}:{nm}:{k}"):
+                    sp.occ(Opaque(EXPR(z3.Select(s0.cons, k)), "Expression"), nm)
+            seqs(ip).pointwise.append(pw)
+            objocc = z3.And(z3.Not(s0.obj_none), sp.occ(Opaque(s0.obj, "Expression"), nm))
+            return z3.Select(NAMES_OF(base), nm) == z3.Or(objocc, excon(s0.ncon))
+        forall_name(ip, gen)
     reg.assume_varlist_valid = assume_varlist_valid
     reg.NM = NM
     reg.NAMES_OF, reg.NATSORTED, reg.DISTINCT = NAMES_OF, NATSORTED, DISTINCT
